@@ -43,7 +43,7 @@ TABLEISH = ("alpha_beta", "user_account_tbl", "setting_tbl")
 
 
 def streams(ctx):
-    return [("emit", ctx.scale(1500, 20000)), ("bulk", ctx.scale(800, 10000))]
+    return [("emit", ctx.scale(4000, 25000)), ("bulk", ctx.scale(2000, 12000))]
 
 
 def walk_refs(node, path=""):
